@@ -85,6 +85,9 @@ func hJWKFromRaw(key interface{}) (jwk.Key, error) {
 // jwk.AssignKeyID (jwx v2.0.x, jwk/jwk.go): "if _, ok := key.Get(KeyIDKey); ok { return nil }", otherwise
 // kid := base64url(thumbprint). A nil key is dereferenced by the original (key.Get), so it is here.
 func hJWKAssignKeyID(key jwk.Key, _ ...jwk.AssignKeyIDOption) error {
+	if key == nil {
+		panic("runtime error: invalid memory address or nil pointer dereference (jwk.AssignKeyID: key.Get on a nil jwk.Key)")
+	}
 	if _, ok := key.Get(jwk.KeyIDKey); ok {
 		return nil
 	}
@@ -292,7 +295,8 @@ type hVer struct {
 	deactDrawn, deact bool // deactivated shape: no controller entries and no capabilityInvocation keys
 	drawn             bool
 	ctrl              []int
-	keys              []string
+	keys              []string // capabilityInvocation keys
+	otherKey          string   // assertionMethod/authentication-only key
 	upd               int64
 	doc               did.Document
 }
@@ -375,6 +379,12 @@ func (w *hWorld) ver(i, j int) *hVer {
 		v.doc.VerificationMethod = append(v.doc.VerificationMethod, vm)
 		v.doc.CapabilityInvocation = append(v.doc.CapabilityInvocation, did.VerificationRelationship{VerificationMethod: vm})
 	}
+	// a key that is listed for assertion and authentication only: it does not authorise updates
+	v.otherKey = vString(1)
+	vm := hMethod(hDID(i), v.otherKey)
+	v.doc.VerificationMethod = append(v.doc.VerificationMethod, vm)
+	v.doc.AssertionMethod = append(v.doc.AssertionMethod, did.VerificationRelationship{VerificationMethod: vm})
+	v.doc.Authentication = append(v.doc.Authentication, did.VerificationRelationship{VerificationMethod: vm})
 	return v
 }
 
